@@ -105,7 +105,8 @@ func Process(t parser.TemplateFile) (parser.TemplateFile, error) {
 		return t, err
 	}
 	// Delete unused imports.
-	for _, imp := range firstGoNodeInTemplate.Imports {
+	// Deleting an import shifts the slice that is being ranged over: iterate over a copy.
+	for _, imp := range slices.Clone(firstGoNodeInTemplate.Imports) {
 		if !containsImport(updatedImports, imp) {
 			name, path, err := getImportDetails(imp)
 			if err != nil {
